@@ -357,6 +357,10 @@ def run(ctx):
         account(ctx, "external:vpulse_params", "EP", "*", ("int", str(vals)), _ext_vpulse(vals))
     for it in [(sh, form) for sh in ("Nmos", "Pmos", "Npn", "Pnp") for form in ("kw", "obj", "obj_other_tp", "none")]:
         account(ctx, "shorthand", it[0], it[1], ("shorthand",) + it, _shorthand_case(it))
+    from hdl21 import primitives as _hp
+
+    for it in [("primitive", pn) for pn in _hp._primitives] + [("external", "EU")]:
+        account(ctx, "unknown_parameter", it[1], "-", ("unknown",) + it, _unknown_case(it))
     many = [(o, w) for w in ("prim", "ext") for o in itertools.permutations(range(len(SPELLINGS)), 2)] + [(tuple(range(len(SPELLINGS))), w) for w in ("prim", "ext")] + [(tuple(reversed(range(len(SPELLINGS)))), w) for w in ("prim", "ext")]
     for it in many:  # in one process, one after the other: nothing carries over from one package to the next either
         account(ctx, "many_instances", "R" if it[1] == "prim" else "EM", "-", ("many", list(it[0]), it[1]), _many_case(it))
@@ -380,7 +384,7 @@ def _shorthand_case(item):
 
     short, form = item
     base, tp = {"Nmos": (h.Mos, h.MosType.NMOS), "Pmos": (h.Mos, h.MosType.PMOS), "Npn": (h.Bipolar, hp.BipolarType.NPN), "Pnp": (h.Bipolar, hp.BipolarType.PNP)}[short]
-    kw = dict(w=3 * h.prefix.µ, l=Decimal("0.15"), npar=4, model="mdl") if base is h.Mos else dict(w=2 * h.prefix.µ, l=1 * h.prefix.µ, model="qmdl")
+    kw = dict(w=3 * h.prefix.µ, l=Decimal("0.15"), nf=4, model="mdl") if base is h.Mos else dict(w=2 * h.prefix.µ, l=1 * h.prefix.µ, model="qmdl")
     try:
         ctor = getattr(h, short)
         if form == "kw":
@@ -408,6 +412,46 @@ def _shorthand_case(item):
     except Exception as e:
         return ("raised", short_exc(e))
     return ("ok", "shorthand")
+
+
+def _unknown_case(item):
+    """A parameter the primitive / parameter class does not have (a misspelt name): refused, or exported under that name -
+    never accepted and dropped."""
+    import hdl21 as h
+    from hdl21 import primitives as hp
+    from hdl21.default import Default
+
+    where, pname = item
+    try:
+        if where == "primitive":
+            prim = hp._primitives[pname].prim
+            kw = {fn: 1 for fn, param in prim.paramtype.__params__.items() if param.default is Default and param.default_factory is Default}
+            first = list(prim.paramtype.__params__)[0]
+            kw[first + "x"] = 5  # e.g. `wx`, `rx`, `dcx`
+            ports = prim.port_list
+            ctor = prim
+        else:
+            @h.paramclass
+            class EP:
+                w = h.Param(dtype=h.Scalar, desc="w", default=1)
+
+            ctor = h.ExternalModule(name="EU", port_list=[h.Port(name="a")], paramtype=EP, domain="hv")
+            kw = dict(w=2, wx=5)
+            ports = ctor.port_list
+        try:
+            call = ctor(**kw)
+        except Exception:
+            return ("ok", "unknown_refused")
+        m = h.Module(name="T")
+        conns = {p.name: m.add(h.Signal(name="s_" + p.name)) for p in ports}
+        m.add(h.Instance(name="x", of=call)(**conns))
+        names = [p.name for p in h.to_proto(m).modules[-1].instances[0].parameters]
+        given = [k for k in kw if k.endswith("x")][0]
+        if given not in names:
+            return ("bad", f"the given parameter {given!r}=5 was accepted and is not on the exported instance (parameters {names})")
+    except Exception as e:
+        return ("raised", short_exc(e))
+    return ("ok", "unknown_exported")
 
 
 SPELLINGS = [("prefixed", "1.50", 3), ("int", 1500), ("float", "1500.0"), ("prefixed", "1500", 0), ("decimal", "1500"), ("prefixed", "1500000", -3), ("numstr", "1500"), ("decimal", "1.5E+3")]
@@ -465,6 +509,8 @@ def replay(body):
     spec = tuple(c["value"])
     if c["where"] == "shorthand":
         r = _shorthand_case((spec[1], spec[2]))
+    elif c["where"] == "unknown_parameter":
+        r = _unknown_case((spec[1], spec[2]))
     elif c["where"] == "many_instances":
         r = _many_case((tuple(spec[1]), spec[2]))
     elif c["where"] == "primitive":
